@@ -203,6 +203,14 @@ class ConvertSpec(FunctionSpec):
         ctx["st"] = R.snapshot()
         return ctx
 
+    def inline_when(self, I, f, args, kwargs):
+        # exponent forms (lists/tuples of (unit, exp)) and non-numeric payloads: real body
+        a = list(args[1:]) + [kwargs.get(k) for k in ("category_or_quantity_type", "from_unit", "to_unit") if k in kwargs]
+        if not all(isinstance(x, SStr) for x in a[:3]):
+            return True
+        v = a[3] if len(a) > 3 else kwargs.get("value")
+        return not isinstance(v, (SNum, symseq.SymSeq))
+
     def cases(self, I, ctx):
         R, st = ctx["R"], ctx["st"]
         c, fu, tu, v = ctx["category_or_quantity_type"], ctx["from_unit"], ctx["to_unit"], ctx["value"]
